@@ -7,6 +7,16 @@
      WithAttrs           ->  [with_attrs]
      WithGroup           ->  [with_group]     (fixed code)   /  [with_group_orig]  (code before the fix)
      Enabled / Handle    ->  [enabled] / [handle]
+     slog.Logger.LogAttrs ->  [logger_log]     (the front end: Handle is called only when Enabled says so)
+
+   The core's LevelEnabler may CHANGE while handlers exist (zap.AtomicLevel.SetLevel, a
+   dynamic LevelEnablerFunc): the current enabler is part of the state threaded through a
+   program ([CEnabler]), it belongs to the core and not to the handler: the [handler] record
+   has no level component and [with_attrs] / [with_group] do not see the enabler, as in the
+   code (Handler has no level field; Enabled and Handle ask h.core each time).
+   [run_snap] is the variant (NOT the code) in which NewHandler caches the core's minimum
+   level and Enabled consults the cache first; kept to show that the model can express a
+   handler that does not follow the core's level.
 
    Handler.groups is a Go slice: it is modelled with an explicit heap of backing arrays
    ([heap], [gslice]) so that "deriving a handler never affects its parent or siblings" is a
@@ -186,7 +196,8 @@ Record entry := { e_level : Z; e_msg : bytes; e_name : bytes; e_fields : list fi
 (* Enabled: h.core.Enabled(convertSlogLevel(level)) *)
 Definition enabled (en : Z -> bool) (level : Z) : bool := en (convert_slog_level level).
 
-(* Handle: ce := core.Check(ent, nil) (ioCore: non-nil iff Enabled(ent.Level)); fields loop; ce.Write(fields...) *)
+(* Handle: ce := core.Check(ent, nil) (ioCore: non-nil iff Enabled(ent.Level)); fields loop; ce.Write(fields...)
+   [en] is the core's enabler AT THE TIME OF THE CALL *)
 Definition handle (cv : bytes -> value -> field) (en : Z -> bool) (hp : heap) (h : handler)
            (level : Z) (msg : bytes) (rec : list attr) : option entry :=
   let zl := convert_slog_level level in
@@ -195,14 +206,25 @@ Definition handle (cv : bytes -> value -> field) (en : Z -> bool) (hp : heap) (h
     Some {| e_level := zl; e_msg := msg; e_name := h_name h; e_fields := h_ctx h ++ fields |}
   else None.
 
+(* slog.Logger.LogAttrs(ctx, level, msg, attrs...):
+     if !l.Enabled(ctx, level) { return } ; r := NewRecord(...); r.AddAttrs(attrs...); l.Handler().Handle(ctx, r) *)
+Definition logger_log (cv : bytes -> value -> field) (en : Z -> bool) (hp : heap) (h : handler)
+           (level : Z) (msg : bytes) (rec : list attr) : option entry :=
+  if enabled en level then handle cv en hp h level msg rec else None.
+
 (* ------------------------------------------------------------------ *)
-(* Programs: any derivation tree, any interleaving                     *)
+(* Programs: any derivation tree, any interleaving, any level moves    *)
 (* ------------------------------------------------------------------ *)
-(* handler 0 is NewHandler(core, WithName(name)); every CGroup/CAttrs creates the next id *)
+(* handler 0 is NewHandler(core, WithName(name)); every CGroup/CAttrs creates the next id.
+   CEnabler: the LevelEnabler of the core (shared by every core derived with With) now
+   answers [en] -- AtomicLevel.SetLevel in either direction, or any other dynamic enabler.
+   CLog: the record goes through slog.New(handlers[h]).LogAttrs instead of Handle directly. *)
 Inductive cmd :=
 | CGroup (parent : nat) (name : bytes)
 | CAttrs (parent : nat) (attrs : list attr)
-| CHandle (h : nat) (level : Z) (msg : bytes) (rec : list attr).
+| CHandle (h : nat) (level : Z) (msg : bytes) (rec : list attr)
+| CEnabler (en : Z -> bool)
+| CLog (h : nat) (level : Z) (msg : bytes) (rec : list attr).
 
 Definition out := (bool * option entry)%type.     (* Enabled(level), what Handle(record) gave the core *)
 
@@ -219,11 +241,42 @@ Fixpoint run (cv : bytes -> value -> field) (wg : heap -> handler -> bytes -> he
   | CHandle i l m rec :: r =>
       let h := nth i st (root name) in
       (enabled en l, handle cv en hp h l m rec) :: run cv wg en name hp st r
+  | CEnabler en' :: r => run cv wg en' name hp st r
+  | CLog i l m rec :: r =>
+      let h := nth i st (root name) in
+      (enabled en l, logger_log cv en hp h l m rec) :: run cv wg en name hp st r
   end.
 
 Definition run_fixed en name p := run convert with_group en name [] [root name] p.
 Definition run_orig en name p := run convert_orig with_group_orig en name [] [root name] p.
 Definition run_append en name p := run convert with_group_append en name [] [root name] p.
+
+(* snapshot variant (NOT the code): NewHandler stores minLevel := zapcore.LevelOf(core), every
+   derivation copies it (cloned := *h), and Enabled answers false below it before asking the
+   core.  LevelOf = the lowest enabled level (6 = InvalidLevel when the four mapped levels
+   are all disabled: above every mapped level). *)
+Definition level_of (en : Z -> bool) : Z :=
+  if en (-1) then -1 else if en 0 then 0 else if en 1 then 1 else if en 2 then 2 else 6.
+Definition enabled_snap (snap : Z) (en : Z -> bool) (level : Z) : bool :=
+  let zl := convert_slog_level level in
+  if zl <? snap then false else en zl.
+Fixpoint run_snap (snap : Z) (en : Z -> bool) (name : bytes) (hp : heap) (st : list handler) (p : list cmd) : list out :=
+  match p with
+  | [] => []
+  | CGroup par g :: r =>
+      let '(hp', h') := with_group hp (nth par st (root name)) g in run_snap snap en name hp' (st ++ [h']) r
+  | CAttrs par a :: r =>
+      run_snap snap en name hp (st ++ [with_attrs convert hp (nth par st (root name)) a]) r
+  | CHandle i l m rec :: r =>
+      let h := nth i st (root name) in
+      (enabled_snap snap en l, handle convert en hp h l m rec) :: run_snap snap en name hp st r
+  | CEnabler en' :: r => run_snap snap en' name hp st r
+  | CLog i l m rec :: r =>
+      let h := nth i st (root name) in
+      (enabled_snap snap en l, if enabled_snap snap en l then handle convert en hp h l m rec else None)
+        :: run_snap snap en name hp st r
+  end.
+Definition run_snapshot en name p := run_snap (level_of en) en name [] [root name] p.
 
 (* ------------------------------------------------------------------ *)
 (* Interpretation of a field list (independent nesting semantics)      *)
@@ -303,13 +356,19 @@ Definition spec_out (en : Z -> bool) (name : bytes) (ops : list op) (l : Z) (m :
   let zl := spec_level l in
   (en zl, if en zl then Some (zl, m, name, spec_sem ops rec) else None).
 
-(* the derivation sequence of every handler of a program, then the expected outputs *)
+(* the derivation sequence of every handler of a program, then the expected outputs.
+   The only thing remembered about a handler is its derivation sequence; the enabler asked
+   is the one in force when the record is logged ("a record is handled if and only if the
+   core enables the mapped level"), whether the record arrives through Handle or through a
+   slog.Logger *)
 Fixpoint spec_run (en : Z -> bool) (name : bytes) (paths : list (list op)) (p : list cmd) : list sout :=
   match p with
   | [] => []
   | CGroup par g :: r => spec_run en name (paths ++ [nth par paths [] ++ [OGroup g]]) r
   | CAttrs par a :: r => spec_run en name (paths ++ [nth par paths [] ++ [OAttrs a]]) r
   | CHandle i l m rec :: r => spec_out en name (nth i paths []) l m rec :: spec_run en name paths r
+  | CEnabler en' :: r => spec_run en' name paths r
+  | CLog i l m rec :: r => spec_out en name (nth i paths []) l m rec :: spec_run en name paths r
   end.
 
 (* projection of the model's output onto the observable *)
@@ -329,25 +388,48 @@ Fixpoint chain_from (i : nat) (ops : list op) : list cmd :=
 Definition chain (ops : list op) (l : Z) (m : bytes) (rec : list attr) : list cmd :=
   chain_from 0 ops ++ [CHandle (length ops) l m rec].
 
-(* (path, level, msg, record) of every Handle of a program *)
-Fixpoint handled_paths (paths : list (list op)) (p : list cmd) : list (list op * Z * bytes * list attr) :=
+(* (enabler in force, path, level, msg, record) of every Handle / Log of a program *)
+Definition hitem := ((Z -> bool) * list op * Z * bytes * list attr)%type.
+Fixpoint handled_paths (en : Z -> bool) (paths : list (list op)) (p : list cmd) : list hitem :=
   match p with
   | [] => []
-  | CGroup par g :: r => handled_paths (paths ++ [nth par paths [] ++ [OGroup g]]) r
-  | CAttrs par a :: r => handled_paths (paths ++ [nth par paths [] ++ [OAttrs a]]) r
-  | CHandle i l m rec :: r => (nth i paths [], l, m, rec) :: handled_paths paths r
+  | CGroup par g :: r => handled_paths en (paths ++ [nth par paths [] ++ [OGroup g]]) r
+  | CAttrs par a :: r => handled_paths en (paths ++ [nth par paths [] ++ [OAttrs a]]) r
+  | CHandle i l m rec :: r => (en, nth i paths [], l, m, rec) :: handled_paths en paths r
+  | CEnabler en' :: r => handled_paths en' paths r
+  | CLog i l m rec :: r => (en, nth i paths [], l, m, rec) :: handled_paths en paths r
   end.
+
+(* the state a program leaves behind: the enabler in force and the derivation sequences *)
+Fixpoint cur_en (en : Z -> bool) (p : list cmd) : Z -> bool :=
+  match p with
+  | [] => en
+  | CEnabler en' :: r => cur_en en' r
+  | _ :: r => cur_en en r
+  end.
+Fixpoint paths_after (paths : list (list op)) (p : list cmd) : list (list op) :=
+  match p with
+  | [] => paths
+  | CGroup par g :: r => paths_after (paths ++ [nth par paths [] ++ [OGroup g]]) r
+  | CAttrs par a :: r => paths_after (paths ++ [nth par paths [] ++ [OAttrs a]]) r
+  | _ :: r => paths_after paths r
+  end.
+Definition no_level_change (p : list cmd) : bool :=
+  forallb (fun c => match c with CEnabler _ => false | _ => true end) p.
 
 (* ------------------------------------------------------------------ *)
 (* Wire                                                                *)
 (* ------------------------------------------------------------------ *)
-(* case   = (mask #name (cmd ...))
+(* case   = (mask #name (cmd ...) [enabler-kind])     enabler-kind: how the harness realises the
+                                                       dynamic enabler (not seen by the model)
    cmd    = (0 parent #group) | (1 parent (attr ...)) | (2 handler level #msg (attr ...))
+          | (3 mask)                                   the core's enabler becomes [mask]
+          | (4 handler level #msg (attr ...))          through slog.Logger
    attr   = (#key value)
    value  = (0 kind #txt) | (1 isnil tree) | (2 (attr ...)) | (3 value)
    tree   = #leaftext | ((#key tree) ...)
    mask   : bit (l+1) set <-> the core enables zap level l  (l in -1..2)
-   observation = (out ...) one per Handle, out = (enabled 1 zaplevel #msg #logger tree) | (enabled 0) *)
+   observation = (out ...) one per Handle / Log, out = (enabled 1 zaplevel #msg #logger tree) | (enabled 0) *)
 Fixpoint dec_tree (s : sx) : tree :=
   match s with
   | SB b => Leaf b
@@ -383,14 +465,16 @@ Fixpoint dec_value (s : sx) : value :=
 Definition dec_attr (s : sx) : attr := (sx_b (sx_nth s 0), dec_value (sx_nth s 1)).
 Definition dec_attrs (s : sx) : list attr := map dec_attr (sx_l s).
 
+Definition en_of_mask (m : Z) (l : Z) : bool := Z.testbit m (l + 1).
+
 Definition dec_cmd (s : sx) : cmd :=
   match sx_z (sx_nth s 0) with
   | 0 => CGroup (sx_n (sx_nth s 1)) (sx_b (sx_nth s 2))
   | 1 => CAttrs (sx_n (sx_nth s 1)) (dec_attrs (sx_nth s 2))
+  | 3 => CEnabler (en_of_mask (sx_z (sx_nth s 1)))
+  | 4 => CLog (sx_n (sx_nth s 1)) (sx_z (sx_nth s 2)) (sx_b (sx_nth s 3)) (dec_attrs (sx_nth s 4))
   | _ => CHandle (sx_n (sx_nth s 1)) (sx_z (sx_nth s 2)) (sx_b (sx_nth s 3)) (dec_attrs (sx_nth s 4))
   end.
-
-Definition en_of_mask (m : Z) (l : Z) : bool := Z.testbit m (l + 1).
 
 Definition dec_case (i : sx) : Z * bytes * list cmd :=
   (sx_z (sx_nth i 0), sx_b (sx_nth i 1), map dec_cmd (sx_l (sx_nth i 2))).
